@@ -7,6 +7,9 @@
      decodes_within      (c)  dec b = Ok v -> wf v /\ lim v
      canonical           (d)  dec b = Ok v -> enc v = Ok b
      codec_ok     = (a) /\ (b) /\ (c) /\ (d)          codec_lax_ok = (a) /\ (b) /\ (c)
+   dec_T is a FUNCTION of the byte string (the Go decoders are modelled on a fresh receiver; for the decoders that are
+   receiver-independent today the `redec` lines of the correspondence compare a second decode into a used object with
+   dec_T of the bytes alone) and enc_T v is a value: later encodes may not change bytes handed out earlier (`hold` lines).
    dec_T false = the decoder as the code was found, dec_T true = with the missing check (repaired tree);
    Model/Wire.v code_strict_zero_offset / code_strict_fixed_scope / code_rejects_empty_list say which one the tree has. *)
 From Shisui Require Import Base.Bytes Base.Ssz Model.Wire Model.WireState Proofs.Ssz Proofs.Ztyp Proofs.Wire Proofs.WireState Gen.K_wire.
